@@ -52,6 +52,17 @@ Theorem C14_waiting_bound :
 Proof. exact TFleet.fleet_waiting_bound. Qed.
 Print Assumptions C14_waiting_bound.
 
+(* ... at full strength: once more than one delay period plus one round trip has passed since an
+   item was loaded, the item IS available (no loaded item is left behind, whatever was loaded
+   before, during or after the trips) -- in every legal timed history, i.e. under the kernel's
+   contract that due events are processed and the clock never passes one *)
+Theorem C14_no_item_left_behind :
+  forall c d tr ops b i t, 0 <= d -> 0 <= tr -> TFleet.frun (TFleet.finit c d tr) ops = Some b ->
+    In (i, t) (TFleet.loads b) -> t + d + 2 * tr < TFleet.fclock b ->
+    exists a, In (i, a) (TFleet.avail b) /\ t + 2 * tr <= a <= t + d + 2 * tr.
+Proof. exact TFleet.fleet_no_item_left_behind. Qed.
+Print Assumptions C14_no_item_left_behind.
+
 (* an item on a trip was loaded at least a round trip before the trip is due: an item loaded after
    a departure is not on that trip *)
 Theorem C14_later_load_waits :
